@@ -115,7 +115,11 @@ def replay_history(case):
         try:
             if ev["op"] == "add":
                 from . import enums
-                if ev["a"] not in enums.RPM_ARCHES and (k + step) % 2:
+                if ev["a"] == "bogus" and (k + step) % 4 != 3:
+                    # unknown names include the known ones followed by a line feed ('$' of a pattern matches before it)
+                    odd = ["src\n", "x86_64\n", "nosrc\n"][(k + step) % 4]
+                    m.add(ev["v"], odd, imgs[ev["img"]])
+                elif ev["a"] not in enums.RPM_ARCHES and (k + step) % 2:
                     # the image itself claims the unknown architecture of the tree it is offered to (put back after the refusal)
                     own = imgs[ev["img"]].arch
                     imgs[ev["img"]].arch = ev["a"]
